@@ -754,16 +754,20 @@ def rule_uncaught_keeps_name(ctx, rep, rid: str) -> None:
     if thr is None:
         raise AnalysisError("VM._throw not found")
     n_sites = 0
-    for n in thr.own_nodes():
-        if isinstance(n, ast.Raise) and isinstance(n.exc, ast.Call) and call_name(n.exc) == "JSError":
+    # the error is raised where it is built, or built in a local that is raised afterwards
+    raised_names = {r.exc.id for r in thr.own_nodes() if isinstance(r, ast.Raise) and isinstance(r.exc, ast.Name)}
+    built = [(r, r.exc) for r in thr.own_nodes() if isinstance(r, ast.Raise) and isinstance(r.exc, ast.Call) and call_name(r.exc) == "JSError"]
+    built += [(a, a.value) for a in thr.own_nodes() if isinstance(a, ast.Assign) and len(a.targets) == 1 and isinstance(a.targets[0], ast.Name) and a.targets[0].id in raised_names and isinstance(a.value, ast.Call) and call_name(a.value) == "JSError"]
+    for n, call in built:
+        if True:
             g = [norm(t) for t, pol in guards_of(n, thr.node) if pol]
             if not any("isinstance(exc, JSObject)" in x for x in g):
                 continue
             n_sites += 1
             key = f"{thr.qual}:uncaught-object"
-            txt = norm(n.exc)
-            pre = " ".join(norm(s) for s in thr.own_nodes() if isinstance(s, ast.Assign) and s.lineno < n.lineno and s.lineno > n.lineno - 8)
-            has_name = (len(n.exc.args) >= 2 or any(k.arg == "name" for k in n.exc.keywords)) and ("get('name')" in txt or "get('name')" in pre)
+            txt = norm(call)
+            pre = " ".join(norm(s) for s in thr.own_nodes() if isinstance(s, ast.Assign) and s is not n and s.lineno < n.lineno and s.lineno > n.lineno - 8)
+            has_name = (len(call.args) >= 2 or any(k.arg == "name" for k in call.keywords)) and ("get('name')" in txt or "get('name')" in pre)
             has_msg = "get('message')" in txt or "get('message')" in pre
             if has_name and has_msg:
                 rep.ok(rid, key)
@@ -811,3 +815,41 @@ def rule_call_stack_not_cut_in_cleanup(ctx, rep, rid: str) -> None:
                 rep.ok(rid, key)
     if n < 4:
         raise AnalysisError(f"only {n} call-stack mutations found")
+
+
+def rule_nested_throw_keeps_value(ctx, rep, rid: str) -> None:
+    """A throw that no handler of a NESTED interpreter catches (code run by eval) leaves that interpreter as the host
+    exception that reports it.  The interpreter outside is still running script code and may have a handler: what
+    that handler receives has to be the thrown value itself - 42, or the very object - not an Error made from its
+    text.  So the reporting exception carries the value, and the run loop that receives it throws the value."""
+    rep.rule(rid, "the uncaught branch of the throw routine attaches the thrown value to the JSError it raises, and the run-loop wrapper's JSError handler re-throws that attached value when there is one (an Error built from the message only for engine errors that carry none)", floor=2)
+    vmcls = ctx.facts.vm_dispatcher()[0].cls
+    thr = ctx.tree.find_method(vmcls, "_throw")
+    if thr is None:
+        raise AnalysisError(f"{rid}: VM._throw not found")
+    ps = [p for p in thr.params() if p != "self"]
+    exc = ps[0] if ps else "exc"
+    attach = [a for a in thr.own_nodes() if isinstance(a, ast.Assign) and len(a.targets) == 1 and isinstance(a.targets[0], ast.Attribute) and isinstance(a.targets[0].value, ast.Name) and norm(a.value) == exc]
+    attrs = {a.targets[0].attr for a in attach}
+    key = f"{thr.qual}:uncaught:carries-value"
+    raised = {r.exc.id for r in thr.own_nodes() if isinstance(r, ast.Raise) and isinstance(r.exc, ast.Name)}
+    if attach and any(a.targets[0].value.id in raised for a in attach):
+        rep.ok(rid, key, {"attribute": sorted(attrs)})
+    else:
+        rep.bad(rid, key, f"{thr.qual} reports an uncaught throw with a JSError built from the text of the value and nothing else: when the interpreter runs inside another evaluation (eval), the handler out there can only be given a new Error - `try {{ eval('throw 42') }} catch (e) {{ e }}` is an Error object, and a thrown object loses its identity", thr.loc)
+    # the receiving side
+    n = 0
+    for m in vmcls.all_methods:
+        if isinstance(m.node, ast.Lambda):
+            continue
+        for h in m.own_nodes():
+            if isinstance(h, ast.ExceptHandler) and h.type is not None and norm(h.type) == "JSError" and h.name and any(isinstance(c, ast.Call) and norm(c.func) == "self._handle_python_exception" for b in h.body for c in ast.walk(b)):
+                n += 1
+                key = f"{m.qual}:except JSError:rethrows-value"
+                re_throw = [c for b in h.body for c in ast.walk(b) if isinstance(c, ast.Call) and norm(c.func) == "self._throw" and c.args and isinstance(c.args[0], ast.Attribute) and norm(c.args[0].value) == h.name and (not attrs or c.args[0].attr in attrs)]
+                if re_throw:
+                    rep.ok(rid, key)
+                else:
+                    rep.bad(rid, key, f"{m.qual} turns every JSError that reaches it from a native into a NEW error object made from its name and message: the value an eval()ed program threw and did not catch is replaced on its way to the outer handler", f"{m.module.rel}:{h.lineno}")
+    if n == 0:
+        rep.ok(rid, "no-JSError-handler", {"note": "no run-loop wrapper converts a JSError coming out of a native into a script error: nothing rebuilds the value here (whether such errors are catchable at all is C07-R5's obligation)"})
